@@ -832,8 +832,41 @@ func checkCase(c Case, r *vf.R) error {
 	bad, worst, at := replay.Compare(got, ref, 64)
 	npix := ref.Bounds().Dx() * ref.Bounds().Dy()
 	limit := 8 + npix/600
+	// dash boundaries on curved segments sit where the approximated inverse arc length puts them; ParseSVG and the
+	// model cut circles and ellipses into different arcs, so the boundaries may differ by a fraction of a pixel,
+	// which changes the pixels along each cut: half the stroke width in pixels per boundary is allowed
+	for _, it := range doc.Items {
+		if it.Stroke == nil || len(it.Stroke.Dashes) == 0 || it.M == nil {
+			continue
+		}
+		curved, length := false, 0.0
+		for _, sg := range it.Segs {
+			curved = curved || sg.Curved()
+			length += oracle.SegLength(sg, 32)
+		}
+		period := 0.0
+		for _, d := range it.Stroke.Dashes {
+			period += d
+		}
+		if curved && period > 0 {
+			scale := math.Sqrt(math.Abs(it.M.Det()))
+			boundaries := 2 * length / period * float64(len(it.Stroke.Dashes)) / 2
+			limit += int(boundaries * math.Max(1, it.Stroke.Width*scale*dpmm) / 2)
+		}
+	}
 	vf.Max("pixels-differing", float64(bad), "largest number of differing pixels in an accepted case")
 	if bad > limit {
+		// the rasterizer strokes both drawings: where the half width exceeds a quarter of the radius of curvature the
+		// stroker's outline has holes and spurious area (finding F04g of C04), differently for differently cut arcs
+		tight := false
+		for _, it := range doc.Items {
+			if it.Stroke != nil && geo.MinRadius(it.Segs) < 2*it.Stroke.Width {
+				tight = true
+			}
+		}
+		if r.Excluded("F04g", tight) {
+			return nil
+		}
 		x, y := (float64(at.X)+0.5)/dpmm, (float64(at.Y)+0.5)/dpmm
 		return vf.Errorf("%d of %d pixels differ from what the document specifies by more than 64/255 (allowed %d); worst %d/255 at (%.2f,%.2f) mm from the top-left: ParseSVG canvas %v, specified %v\n%s", bad, npix, limit, worst, x, y, ref.RGBAAt(at.X, at.Y), got.RGBAAt(at.X, at.Y), xml)
 	}
